@@ -56,6 +56,9 @@ def cfg_step(tier, seed):
     out = [{'w': w, 'op': 'ptype:' + p} for w in PT[:3] for p in PT] + [{'w': w, 'op': c} for w in PT[:3] for c in CLASSES + ('Tilt(ptype=none-object)',)]
     out += [{'w': w, 'op': 'ptype:' + p, 'variant': v} for w in PT[:3] for p in PT for v in ('runtime-name', 'data-less')]
     out += [{'w': w, 'op': c, 'variant': 'data-less'} for w in PT[:3] for c in ('Pupil', 'Image')]
+    # the wavefront's type assigned after construction, as a name
+    out += [{'w': w, 'op': 'ptype:' + p, 'variant': 'assigned-name'} for w in PT[:3] for p in PT]
+    out += [{'w': w, 'op': o, 'variant': 'assigned-name'} for w in PT[:3] for o in ('propagate',)]
     # the other documented ways of writing the product: the plane's multiply() hook called directly, and the in-place form
     out += [{'w': w, 'op': 'ptype:' + p, 'form': f} for w in PT[:3] for p in PT for f in ('p.multiply(w)', 'w*=p')]
     out += [{'w': w, 'op': c, 'form': 'p.multiply(w)'} for w in PT[:3] for c in ('Pupil', 'Image', 'Tilt', 'DispersiveTilt')]
@@ -82,6 +85,21 @@ def run_step(W, cfg):
                          ptype=''.join(list(cfg['w'])))
         plane = lt.Plane(amplitude=W.reals('a0', (2, 2), nz=True), ptype=name)
         ptype = cfg['op'][6:]
+    elif variant == 'assigned-name':
+        w = lt.Wavefront(W.real('lam', pos=True), pixelscale=(W.real('pr', pos=True), W.real('pc', pos=True)), focal_length=W.real('f', pos=True))
+        w.ptype = ''.join(list(cfg['w']))
+        W.ob_true('an assigned type name reads back as that type', str(w.ptype) == cfg['w'] and w.ptype == lt.ptype(cfg['w']))
+        if cfg['op'] == 'propagate':
+            w = w * lt.Plane(amplitude=W.reals('a_init', (2, 2), nz=True), ptype=cfg['w'])
+            try:
+                o = lt.propagate_dft(w, pixelscale=(W.real('ur', pos=True), W.real('uc', pos=True)), shape=(2, 2), oversample=1)
+                W.ob_true('propagation permitted only from pupil or image', ptable.propagate(cfg['w']) is not None)
+                W.ob_true('propagation turns one into the other', str(o.ptype) == ptable.propagate(cfg['w']))
+            except TypeError:
+                W.ob_true('propagation refused only from type none', ptable.propagate(cfg['w']) is None)
+            return
+        plane = _mk(W, lt, cfg['op'], 0)
+        ptype = _expected_plane_type(cfg['op'], classes)
     elif variant == 'data-less':
         plane = {'Pupil': lambda: lt.Pupil(focal_length=W.real('fl0', pos=True)), 'Image': lambda: lt.Image()}.get(cfg['op'], lambda: lt.Plane(ptype=cfg['op'][6:]))()
         ptype = _expected_plane_type(cfg['op'], classes)
